@@ -34,3 +34,53 @@ contract(UTIL, 'resolve_dtype',
         f'implies({_CLS}(dt1) == {_CLS}(dt2) and dt1 != dt2 and not kind_is(dt1, "O"), result == np_result_type(dt1, dt2) or result == DTYPE_OBJECT)',
         f'implies({_CLS}(dt1) == {_CLS}(dt2) and dt1 != dt2 and not kind_is(dt1, "O", "m"), result == np_result_type(dt1, dt2))',
     ])
+
+# ---------------------------------------------------------------------------------------------
+# TypeBlocks: the column directory invariant Dir(tb)  (DESIGN §3 C03)
+RECORDS['TypeBlocks'] = dict(_blocks='list[arr]', _index='list[tuple[int,int]]', _dtypes='list[dtype]',
+                     _shape='tuple[int,int]', _row_dtype='opt[dtype]')
+
+# local (successor) characterisation of the directory: no ghost offsets needed
+predicate('Dir', ['tb'], ' and '.join([
+    'len(tb._index) == tb._shape[1] and len(tb._dtypes) == tb._shape[1] and tb._shape[0] >= 0',
+    # every block: width >= 1, common row count, read-only
+    'forall_in(0, len(tb._blocks), lambda k: W(at(tb._blocks, k)) >= 1 and at(tb._blocks, k).rows == tb._shape[0] and (at(tb._blocks, k).ndim == 1 or at(tb._blocks, k).ndim == 2))',
+    # every column addresses an existing block column and carries that block's dtype
+    'forall_in(0, len(tb._index), lambda c: 0 <= at(tb._index, c)[0] and at(tb._index, c)[0] < len(tb._blocks) and 0 <= at(tb._index, c)[1] and at(tb._index, c)[1] < W(at(tb._blocks, at(tb._index, c)[0])) and at(tb._dtypes, c) == at(tb._blocks, at(tb._index, c)[0]).dtype)',
+    # consecutive columns are consecutive in (block, column-in-block) order: no gap, no repeat
+    'forall_in(0, len(tb._index) - 1, lambda c: (at(tb._index, c + 1)[0] == at(tb._index, c)[0] and at(tb._index, c + 1)[1] == at(tb._index, c)[1] + 1) or (at(tb._index, c + 1)[0] == at(tb._index, c)[0] + 1 and at(tb._index, c + 1)[1] == 0 and at(tb._index, c)[1] == W(at(tb._blocks, at(tb._index, c)[0])) - 1))',
+    'implies(len(tb._index) > 0, at(tb._index, 0)[0] == 0 and at(tb._index, 0)[1] == 0 and at(tb._index, len(tb._index) - 1)[0] == len(tb._blocks) - 1 and at(tb._index, len(tb._index) - 1)[1] == W(at(tb._blocks, len(tb._blocks) - 1)) - 1)',
+    'implies(len(tb._index) == 0, len(tb._blocks) == 0)',
+]))
+predicate('Frozen', ['tb'], 'forall_in(0, len(tb._blocks), lambda k: not at(tb._blocks, k).writeable)')
+predicate('RowDtypeHolds', ['tb'], 'implies(len(tb._blocks) > 0, not is_none(tb._row_dtype) and forall_in(0, len(tb._blocks), lambda k: at(tb._blocks, k).dtype == tb._row_dtype or tb._row_dtype == DTYPE_OBJECT))')
+
+_OLDN = 'old(len(self._index))'
+_OLDB = 'old(len(self._blocks))'
+contract(TB, 'TypeBlocks.append',
+    props=['C09', 'C03', 'C01'],
+    params=dict(self='TypeBlocks', block='arr'), order=['self', 'block'], result='none',
+    requires=['Dir(self)', 'Frozen(self)', 'block.ndim == 1 or block.ndim == 2',
+              'implies(len(self._blocks) == 0, is_none(self._row_dtype))', 'RowDtypeHolds(self)'],
+    # all-or-nothing: a mis-sized block is rejected before any write
+    raises={'RuntimeError': 'block.rows != self._shape[0]'},
+    raise_ensures=['self == old(self)'],
+    n_loops=1,
+    loops={0: dict(index='t', invariant=[
+        'self._blocks == old(self._blocks) and self._row_dtype == old(self._row_dtype)',
+        f'self._shape[0] == old(self._shape[0]) and self._shape[1] == {_OLDN} + W(block)',
+        f'len(self._index) == {_OLDN} + t and len(self._dtypes) == {_OLDN} + t',
+        f'forall_in(0, {_OLDN}, lambda c: at(self._index, c) == at(old(self._index), c) and at(self._dtypes, c) == at(old(self._dtypes), c))',
+        f'forall_in({_OLDN}, {_OLDN} + t, lambda c: at(self._index, c)[0] == {_OLDB} and at(self._index, c)[1] == c - {_OLDN} and at(self._dtypes, c) == block.dtype)',
+    ])},
+    ensures=[
+        'block.rows == old(self._shape[0])',                     # normal exit only for a matching row count
+        'implies(W(block) == 0, self == old(self))',             # 0-width block is a no-op
+        # append-only: the old prefix of blocks / index / dtypes is untouched (same arrays)
+        f'forall_in(0, {_OLDB}, lambda k: at(self._blocks, k) == at(old(self._blocks), k))',
+        f'forall_in(0, {_OLDN}, lambda c: at(self._index, c) == at(old(self._index), c) and at(self._dtypes, c) == at(old(self._dtypes), c))',
+        f'implies(W(block) > 0, len(self._blocks) == {_OLDB} + 1 and self._shape[1] == {_OLDN} + W(block) and self._shape[0] == old(self._shape[0]))',
+        # the appended block holds the caller's data, read-only, copied if the caller could still write to it
+        f'implies(W(block) > 0, not at(self._blocks, {_OLDB}).writeable and at(self._blocks, {_OLDB}).dtype == block.dtype and at(self._blocks, {_OLDB}).rows == block.rows and W(at(self._blocks, {_OLDB})) == W(block) and implies(block.writeable, at(self._blocks, {_OLDB}).fresh))',
+        'Dir(self)', 'Frozen(self)', 'RowDtypeHolds(self)',
+    ])
